@@ -50,7 +50,19 @@ class DevirtInliner(Inliner):
                 m = self.repo.lookup_method(self.recv, orig.func.attr)
                 if m is not None:
                     return None if m.is_abstract or m.is_property else m
-        return super()._resolve(ctx, call)
+        got = super()._resolve(ctx, call)
+        if got is None and self.recv is not None and isinstance(call.func, ast.Attribute) and isinstance(call.func.value, ast.Name):
+            # a callable *parameter* of a helper that was bound to `self.method` when the helper was inlined
+            # (`self._guarded(flag, data, self._find)` -> `find(data)` has become `self._find(data)` in the view)
+            fsrc = getattr(call.func, "_src", None) or getattr(call.func.value, "_src", None)
+            o_src = getattr(call, "_src", None)
+            if fsrc is not None and o_src is not None and isinstance(o_src[1], ast.Call) and isinstance(o_src[1].func, ast.Name):
+                f_ctx = fsrc[0]
+                if f_ctx.cls is not None and f_ctx.cls.fq in self.recv_mro and f_ctx.params and call.func.value.id == f_ctx.params[0].arg and not f_ctx.is_staticmethod:
+                    m = self.repo.lookup_method(self.recv, call.func.attr)
+                    if m is not None and not m.is_abstract and not m.is_property:
+                        return m
+        return got
 
     # -- hoisting: `if self._helper(x):` / `f(self._helper(x))` / `{.. for d in self._helper(x)}`  ->  `t = self._helper(x)` in front,
     #    so that multi-statement helpers used inside an expression are inlined like the statement forms
@@ -151,9 +163,43 @@ class DevirtInliner(Inliner):
             s.test = walk(s.test)
         return pre
 
+    def _split_conditional(self, ctx: FuncInfo, s: ast.stmt) -> ast.stmt:
+        """`return a if c else f(x)` / `v = a if c else f(x)`  ->  if/else statements, when a branch calls a helper that can be
+        inlined (a call inside a conditional expression cannot be hoisted in front of the statement)."""
+        v = getattr(s, "value", None)
+        if not isinstance(v, ast.IfExp) or not isinstance(s, (ast.Return, ast.Assign, ast.AnnAssign)):
+            return s
+        if isinstance(s, ast.Assign) and not (len(s.targets) == 1 and isinstance(s.targets[0], ast.Name)):
+            return s
+        if isinstance(s, ast.AnnAssign) and not isinstance(s.target, ast.Name):
+            return s
+        if not any(isinstance(x, ast.Call) and self._resolve(ctx, x) is not None for br in (v.body, v.orelse) for x in ast.walk(br)):
+            return s
+
+        def branch(e: ast.expr) -> ast.stmt:
+            if isinstance(s, ast.Return):
+                st: ast.stmt = ast.Return(value=e)
+            elif isinstance(s, ast.Assign):
+                st = ast.Assign(targets=[ast.Name(id=s.targets[0].id, ctx=ast.Store())], value=e)
+            else:
+                st = ast.AnnAssign(target=ast.Name(id=s.target.id, ctx=ast.Store()), annotation=s.annotation, value=e, simple=1)
+            ast.copy_location(st, e)
+            for t in getattr(st, "targets", []):
+                ast.copy_location(t, e)
+            if hasattr(s, "_src"):
+                st._src = s._src  # type: ignore[attr-defined]
+            return st
+
+        new = ast.If(test=v.test, body=[self._split_conditional(ctx, branch(v.body))], orelse=[self._split_conditional(ctx, branch(v.orelse))])
+        ast.copy_location(new, s)
+        if hasattr(s, "_src"):
+            new._src = s._src  # type: ignore[attr-defined]
+        return new
+
     def _block(self, ctx: FuncInfo, stmts: list[ast.stmt], taken: set[str], origin: dict, stack: tuple[str, ...]) -> list[ast.stmt]:
         expanded: list[ast.stmt] = []
         for s in stmts:
+            s = self._split_conditional(ctx, s)
             expanded += self._hoist(ctx, s, taken, stack)
             expanded.append(s)
         return super()._block(ctx, expanded, taken, origin, stack)
